@@ -418,6 +418,12 @@ def rule_g(ctx):
     if reorder:
       problems.append(f'updates are applied in `{A.unparse(lp.iter, 80)}` order, not the caller\'s: new keys are '
                       f'inserted in a different order than dict.update would')
+  # any re-ordering of the batch before it is applied (sorted copy, in-place sort of a key list ...)
+  for c in A.calls_in(f.node):
+    last = c.func.attr if isinstance(c.func, ast.Attribute) else (c.func.id if isinstance(c.func, ast.Name) else '')
+    if last in ('sort', 'sorted', 'reverse', 'reversed') and not any('sorted' in p_ or 'reversed' in p_ for p_ in problems):
+      problems.append(f'the batch is re-ordered by `{A.unparse(c, 60)}` before it is applied: new keys are inserted '
+                      f'in a different order than dict.update would')
   ctx.ob('C02.g', f.fq, not problems,
          'a batched Dict update is applied in the caller\'s order (insertion order of new keys as for dict)',
          f.loc, '; '.join(problems))
